@@ -16,8 +16,11 @@
            created / removed / moved directories that match a pattern                           REFUTED for the
                code shape without `isdir_emits_self` (C14-D10), proved for the shape with it
            files inside a new directory that no watch was ever requested for                    REFUTED (C14-D10d)
-           re-created directories (rescan), pending watches, dir_loop                           model + correspondence only
-     and (2) needs `detached_unmatched` while the commit re-hashes detached nodes: REFUTED without it (C14-D11). *)
+           watched directory removed / moved away: everything recorded under it is deleted       PROVED (_removed_directory_)
+           directory that (re)appears and is a key of `watches`: watch installed, files directly
+               inside it queued                                                                  PROVED (_appeared_directory_)
+           deeper levels of the rescan, pending watches created by dir_loop                     model + correspondence only
+     and (2) needs `detached_unmatched` while the commit re-hashes detached nodes: REFUTED without it (D15). *)
 From Coq Require Import List NArith Bool.
 From SV Require Import lib.Bytes gen.GenWatch model.Watch proofs.WatchProofs.
 Import ListNotations.
@@ -81,6 +84,42 @@ Theorem C14_changes_cover_difference_files :
     cover_rel (raw_last (emitted watched f ops) x) (f x) (run_ops f ops x).
 Proof. exact changes_cover_difference_files. Qed.
 
+(* (4), a directory with an installed watch is removed or moved away (DELETE|ISDIR or MOVED_FROM|ISDIR
+   delivered by its parent): change_loop queues DELETED_PARENT and marks the watch pending, and -- whatever
+   was recorded before -- after that item every attached node in a relevant state whose label lies under
+   the directory and every recorded match of an attached pattern under it is in `deleted` and not in
+   `updated`. *)
+Theorem C14_removed_directory_covers_everything_under :
+  forall (rest : Type) (matches : N -> path -> bool) (g : gstate rest)
+         (self : bool) (t : tree) (w : watches) (d : path) (m : N) (items : list item) (p : path),
+    removed_mask m -> w_get w d = Some true ->
+    ((exists f, In f (g_files g) /\ f_attached f = true /\ mem_fstate (f_state f) relevant_states = true /\
+                is_prefix (dir_pre d) (f_path f) = true /\ f_path f = p) \/
+     (exists r, In r (g_nglobs g) /\ ng_attached r = true /\ In p (ng_matches r) /\
+                is_prefix (dir_pre d) p = true)) ->
+    let r := process_event_gen self t w (mk_event m d) in
+    let ws := fold_changes (change_is_relevant rest matches g) (relevant_paths_under rest g)
+                           (items ++ [mk_item DeletedParent d false]) ws_empty in
+    In (mk_item DeletedParent d false) (snd r) /\ w_get (fst r) d = Some false /\
+    pmem p (ws_deleted ws) = true /\ pmem p (ws_updated ws) = false.
+Proof.
+  intros rest matches g self t w d m items p Hm Hw Hp r ws.
+  destruct (removed_dir_emits_deleted_parent self t w d m Hm Hw) as [A B].
+  split; [subst r; rewrite B; left; reflexivity|]. split; [exact A|].
+  apply deleted_parent_marks_all. apply (relevant_paths_under_spec rest g false d p). exact Hp.
+Qed.
+
+(* (4), a directory appears (CREATE|ISDIR or MOVED_TO|ISDIR) that is a key of `watches`, installed or
+   pending (it was watched before, or dir_loop recorded it while it did not exist): afterwards its watch
+   is installed and every regular file directly inside it has been queued as UPDATED. *)
+Theorem C14_appeared_directory_children_covered :
+  forall (self : bool) (t : tree) (w : watches) (d : path) (inst : bool) (m : N),
+    created_mask m -> w_get w d = Some inst ->
+    let r := process_event_gen self t w (mk_event m d) in
+    w_get (fst r) d = Some true /\
+    forall x, t_is_file t x = true -> is_child d x = true -> In (mk_item Updated x false) (snd r).
+Proof. exact appeared_dir_children_covered. Qed.
+
 (* (4), directories that themselves match a pattern: covered exactly when the ISDIR branch queues the
    directory itself.  The generated flag isdir_emits_self says which shape the code has. *)
 Theorem C14_matching_directory_covered_iff_self_emitted :
@@ -110,17 +149,17 @@ Theorem C14_new_directory_contents_refuted :
   forall self, ~ new_dir_contents_covered self.
 Proof. exact new_dir_contents_not_covered. Qed.
 
-(* C14-D11 witness: a detached UNDECLARED node on a path matched by an attached pattern, file
+(* D15 witness: a detached UNDECLARED node on a path matched by an attached pattern, file
    created while watching: the commit raises (None = ConsistencyError), the rescan does not; with
    the re-hash restricted to attached nodes the two agree. *)
 Theorem C14_detached_matched_node_refuted :
-  watch_commit_gen unit id_action id_nglob hash_D11 all_match [p_D11] false g_D11 [p_D11] [] = None /\
-  startup_rescan unit id_action id_nglob hash_D11 (fun _ => true) all_match [p_D11] g_D11 <> None /\
-  watch_commit_gen unit id_action id_nglob hash_D11 all_match [p_D11] true g_D11 [p_D11] []
-  = startup_rescan unit id_action id_nglob hash_D11 (fun _ => true) all_match [p_D11] g_D11.
+  watch_commit_gen unit id_action id_nglob hash_D15 all_match [p_D15] false g_D15 [p_D15] [] = None /\
+  startup_rescan unit id_action id_nglob hash_D15 (fun _ => true) all_match [p_D15] g_D15 <> None /\
+  watch_commit_gen unit id_action id_nglob hash_D15 all_match [p_D15] true g_D15 [p_D15] []
+  = startup_rescan unit id_action id_nglob hash_D15 (fun _ => true) all_match [p_D15] g_D15.
 Proof.
-  split; [exact D11_watch_commit_errors|]. split; [rewrite D11_rescan_ok; discriminate|].
-  exact D11_attached_only_agrees.
+  split; [exact D15_watch_commit_errors|]. split; [rewrite D15_rescan_ok; discriminate|].
+  exact D15_attached_only_agrees.
 Qed.
 
 (* The generated tables are the ones the proofs rely on: a state the watcher finds relevant is one
